@@ -424,8 +424,10 @@ class C05(Monitor):
         # pickup record was filed)
         for v in s.vehicles.values():
             p = prev.vehicles.get(v.id)
-            if p is not None and aname(p) == "DispatchTrip" and aname(v) == "OutOfService":
-                # arrived, took the request on board and ran dry within one step: the boarding cannot be seen in the state
+            if aname(v) == "OutOfService" and (p is None or getattr(p.vehicle_state, "instance_id", None) != v.vehicle_state.instance_id):
+                # a vehicle that went out of service in this step may have arrived, taken its request on board and run dry all
+                # within the step (also when it was out of service before and was sent to a request where it stands): such a
+                # boarding cannot be seen in the state
                 self.fare_state_unknown.add(v.id)
             if aname(v) == "ServicingTrip" and (p is None or getattr(p.vehicle_state, "instance_id", None) != v.vehicle_state.instance_id):
                 r = v.vehicle_state.request
